@@ -1,8 +1,8 @@
 package checks
 
 import (
-	"strings"
 	"fmt"
+	"strings"
 
 	vmcommon "github.com/ElrondNetwork/elrond-vm-common"
 
@@ -88,10 +88,37 @@ func c03Profiles(tier Tier) []*explore.Profile {
 				sb.Must(uni.SetRole(uni.A0, uni.S, append(rolesOfMask(m), alikes...)...))
 				sb.Must(uni.SetRole(uni.A0, uni.F, append(rolesOfMask(m), alikes...)...))
 				out = append(out, explore.SeedState{Name: "look-alikes-of-" + r, W: sb.W, Legs: sb.Legs, Failed: sb.Failed})
+				// the same with the look-alikes stored first: the real roles sit at positions 9..14
+				sb2 := &uni.Builder{Env: env, W: clean}
+				sb2.Must(uni.SetRole(uni.A0, uni.S, append(append([]string{}, alikes...), rolesOfMask(m)...)...))
+				sb2.Must(uni.SetRole(uni.A0, uni.F, append(append([]string{}, alikes...), rolesOfMask(m)...)...))
+				out = append(out, explore.SeedState{Name: "look-alikes-first-of-" + r, W: sb2.W, Legs: sb2.Legs, Failed: sb2.Failed})
 			}
 			return out
 		},
-		Menu: func(w *world.World) []world.Action { return gatedCalls(uni.A0) },
+		Menu: func(w *world.World) []world.Action {
+			acts := gatedCalls(uni.A0)
+			// every single role taken away, and the create role handed over (role-effect clause:
+			// whatever the position of the name in the stored list)
+			for _, r := range uni.AllRoles {
+				for _, tok := range [][]byte{uni.S, uni.F} {
+					if spec.HasRole(w.Get(uni.A0), string(tok), r) {
+						acts = append(acts, uni.UnSetRole(uni.A0, tok, r))
+					}
+				}
+			}
+			if spec.HasRole(w.Get(uni.A0), tS, vmcommon.ESDTRoleNFTCreate) {
+				acts = append(acts, uni.SysCall(uni.A0, vmcommon.BuiltInFunctionESDTNFTCreateRoleTransfer, uni.S, uni.B0))
+			}
+			return acts
+		},
+	}
+	// SetUserName under a configuration without any DNS address: nobody is entitled
+	noDNS := &explore.Profile{
+		Name: "no-dns-address", EnvCfg: world.EnvConfig{NumShards: 2, InitialEpoch: ledgerEnv(2).InitialEpoch}, Depth: 1, Deadline: tierDeadline(tier),
+		Oracles: []explore.Oracle{&authorityOracle{property: "C03", dns: map[string]bool{}}},
+		Seeds:   seedsOf("mixed"),
+		Menu:    func(w *world.World) []world.Action { return accountMenu(w, o) },
 	}
 	depth := 4
 	if tier.Thorough() {
@@ -120,7 +147,7 @@ func c03Profiles(tier Tier) []*explore.Profile {
 			return acts
 		},
 	}
-	return []*explore.Profile{product, hist}
+	return []*explore.Profile{product, hist, noDNS}
 }
 
 // undisciplinedRoleMenu: the system contract sets and unsets single roles without discipline A7.
@@ -186,6 +213,16 @@ func c05Profiles(tier Tier) []*explore.Profile {
 			acts = append(acts, accountMenu(w, o)...)
 			acts = append(acts, impostorMenu(w, o)...)
 			acts = append(acts, deliveries(w)...)
+			acts = append(acts, boundaryNonceCalls()...)
+			// every role taken away at once, the create role included (the frame condition does not
+			// depend on the system contract's discipline)
+			for _, a := range users(o) {
+				for _, tok := range [][]byte{uni.F, uni.S} {
+					if len(spec.Roles(w.Get(a), string(tok))) > 0 {
+						acts = append(acts, uni.UnSetRole(a, tok, uni.AllRoles...))
+					}
+				}
+			}
 			return acts
 		},
 	}
